@@ -143,6 +143,10 @@ def _run_sequence_inner(c, seq):
     if L.size and (np.min(L) < 0.0049 or np.max(L) > 0.9951):
         issues.append(("learning_data_scaled_into_range", "learning data range [%r,%r]" % (float(np.min(L)), float(np.max(L)))))
     prev_ds = None
+    # foreign_tested: a successful test_data() call has appended user data to the object's stored testing data; from then on that data
+    # carries parts whose scaling attributes are the user's (pct = 1: only those), and reverting it is DataSet business (C18), not the
+    # classifier's: the in-range oracle on the object's own REVERTED testing data is only demanded before that
+    foreign_tested = False
     for si, (kind, name) in enumerate(steps):
         again = False
         if name == "again":
@@ -174,7 +178,7 @@ def _run_sequence_inner(c, seq):
                 ds.revert_scaling()
             Xd, yd = np.array(ds.get_data()[0], dtype=float), np.array(ds.get_data()[1])
             sc, inr, scin, expc, tie = _expected(cl, lo, fac, Xd, yd, prescaled=(name == "own"))
-            if not inr.all():
+            if not inr.all() and not foreign_tested:
                 issues.append(("own_testing_data_in_range", "step %d %s/%s: %d of the classifier's own testing samples are outside the learned range" % (si, kind, name, int((~inr).sum()))))
         else:
             Xd, yd = EVAL[c["data"]][name]
@@ -189,6 +193,11 @@ def _run_sequence_inner(c, seq):
         prev_ds = ds
         if again and raised and refused_reuse:
             continue          # re-use refused because of the object's scaling attributes: nothing was classified
+        if name.startswith("own") and raised and refused_reuse and ds.is_scaled() and not (
+                np.array_equal(np.asarray(ds.get_original_min(), dtype=float), lo) and np.array_equal(np.asarray(ds.get_original_max(), dtype=float), np.asarray(hi, dtype=float))):
+            # the stored testing data stems from a user's set (test_data on an object without an initial testing part): it carries that
+            # set's original extent, and the library's documented rule refuses pre-scaled data of another origin - as for "again"
+            continue
         labelled_in = inr & (yd >= 0)
         if kind == "call":
             if not inr.any():
@@ -208,7 +217,12 @@ def _run_sequence_inner(c, seq):
                 issues.append(("argmax_class", "step %d %s/%s: classes %r, arg-max of the densities %r" % (si, kind, name, list(map(int, yo)), list(map(int, expc)))))
             if first is None and si == 0:
                 first = list(map(int, yo))
-            elif si == len(steps) - 1 and first is not None and list(map(int, yo)) != first:
+                first_X = np.array(Xo, dtype=float).copy()
+            elif si == len(steps) - 1 and first is not None and name.startswith("own") and not (
+                    len(Xo) >= len(first_X) and np.array_equal(np.array(Xo, dtype=float)[:len(first_X)], first_X)):
+                pass      # the object's own testing data changed in between (grown by test_data; reverting the grown set anchors on another minimum): other inputs
+            elif si == len(steps) - 1 and first is not None and (list(map(int, yo))[:len(first)] if name.startswith("own") else list(map(int, yo))) != first:
+                # (the object's own testing data may have grown by later test_data calls: the classes of the earlier samples are compared)
                 issues.append(("earlier_results_unchanged", "repeating the first evaluation gives %r instead of %r" % (list(map(int, yo)), first)))
         else:
             if not inr.any():
@@ -238,10 +252,35 @@ def _run_sequence_inner(c, seq):
                 issues.append(("calculated_classes_values", "step %d: appended %r, arg-max %r" % (si, calc_now[len(calc_before):], list(map(int, exp_used)))))
             if first is None and si == 0:
                 first = ("test", out["Wrong mappings"], out["Total mappings"])
-            elif si == len(steps) - 1 and isinstance(first, tuple) and first != ("test", out["Wrong mappings"], out["Total mappings"]):
+            elif si == len(steps) - 1 and isinstance(first, tuple) and first != ("test", out["Wrong mappings"], out["Total mappings"]) and not (
+                    name.startswith("own") and out["Total mappings"] != first[2]):
+                # (the object's own testing data grows with every test_data call: a summary over more samples is not comparable)
                 issues.append(("earlier_results_unchanged", "repeating the first test gives %r instead of %r" % ((out["Wrong mappings"], out["Total mappings"]), first[1:])))
         calc_before = list(cl.get_calculated_classes_testset())
+        if kind == "test" and not raised and inr.any():
+            issues.extend(_overall_summary(cl, "after step %d %s/%s" % (si, kind, name)))
+            foreign_tested = True
     return issues, key
+
+
+def _overall_summary(cl, when):
+    """evaluate(): the summary over ALL testing data of the object (the initial testing part plus everything tested later) must be
+    consistent with the classes assigned so far and the labels of the stored testing samples"""
+    calc = [int(x) for x in cl.get_calculated_classes_testset()]
+    try:
+        out = cl.evaluate()
+    except ValueError as e:
+        if not calc and "Nothing to evaluate" in str(e):
+            return []
+        return [("overall_summary", "%s: evaluate() raised ValueError(%s) with %d classes assigned so far and %d stored testing samples"
+                 % (when, str(e)[:80], len(calc), cl.get_testing_data().get_length()))]
+    lab = [int(x) for x in cl.get_testing_data().get_data()[1]]
+    wrong = sum(1 for a, b in zip(lab, calc) if a != b)
+    if len(lab) != len(calc) or out["Total mappings"] != len(calc) or out["Wrong mappings"] != wrong or \
+            abs(out["Percentage correct"] - (1 - wrong / max(len(calc), 1))) > 1e-12:
+        return [("overall_summary", "%s: evaluate() = %r; %d stored testing labels, %d assigned classes, %d of them differ"
+                 % (when, {k: v for k, v in out.items() if "str" not in k and "Time" not in k}, len(lab), len(calc), wrong))]
+    return []
 
 
 def run_case(case):
